@@ -48,3 +48,49 @@ class CVRP(Adapter):
         return {"cur": int(td["current_node"][r, 0]),
                 "used": int(round(float(td["used_capacity"][r, 0]) * CAP_UNIT)),
                 "visited": [int(i) for i in td["visited"][r].nonzero().flatten().tolist()]}
+
+
+class CVRPDecimal(CVRP):
+    """The embedding the bundled generator uses: demand = k / capacity as float32, vehicle capacity 1.0.
+    The integer problem (demands k, capacity c) is unchanged; float rounding of partial sums is the code's
+    business.  Families are built around exact fills (sum of a route's demands = capacity)."""
+    tag = "cvrp_decimal"
+    properties = ("C01", "C02", "C05", "C06")
+
+    def family(self, tier, seed=0):
+        import random
+
+        rnd = random.Random(seed)
+        insts = []
+        N = 4
+        pts, g, D = points_for(N + 1, 0, 0)
+        caps = (30, 40, 50) if tier == "quick" else (20, 30, 40, 50, 7, 11, 13)
+        for cap in caps:
+            for _ in range(12 if tier == "quick" else 60):
+                # an exact fill of three customers + a fourth one
+                a = rnd.randint(1, cap - 2)
+                b = rnd.randint(1, cap - a - 1)
+                c = cap - a - b
+                d = rnd.randint(1, min(9, cap))
+                dem = [a, b, c, d]
+                rnd.shuffle(dem)
+                insts.append({"N": N, "D": D, "dem": dem, "cap": cap, "pts": pts, "grid": g, "emb": "decimal"})
+        return with_ids(insts)
+
+    def make_env(self, inst):
+        from rl4co.envs import CVRPEnv
+
+        return CVRPEnv(generator_params={"num_loc": inst["N"], "vehicle_capacity": 1.0}, check_solution=False)
+
+    def to_td(self, insts):
+        locs = torch.stack([embed.locs_tensor(i["pts"], i["grid"]) for i in insts])
+        dem = torch.stack([torch.tensor(i["dem"], dtype=torch.float32) / float(i["cap"]) for i in insts])
+        return TensorDict({"depot": locs[:, 0], "locs": locs[:, 1:], "demand": dem}, batch_size=[len(insts)])
+
+    def group_key(self, inst):
+        return (inst["N"],)
+
+    def project(self, td, r, inst):
+        return {"cur": int(td["current_node"][r, 0]),
+                "used": int(round(float(td["used_capacity"][r, 0]) * inst["cap"])),
+                "visited": [int(i) for i in td["visited"][r].nonzero().flatten().tolist()]}
